@@ -50,10 +50,11 @@ Definition add_apply (typs : list aty) : gres :=
   need (length typs =? 2) (
   idx typs 0 (fun t0 =>
   match t0 with
-  | ASig ps _ _ =>
+  | ASig ps _ v =>
+      need (negb v) (                      (* fixed: variadic functions are refused *)
       need (1 <=? alen ps) (
       at_ ps (alen ps - 1) (fun lastArg =>
-      idx typs 1 (fun t1 => need (assignable t1 lastArg) Ok)))
+      idx typs 1 (fun t1 => need (assignable t1 lastArg) Ok))))
   | _ => Err
   end)).
 
@@ -75,7 +76,8 @@ Fixpoint compose_sigs (typs : list aty) : option (list (atys * atys)) + gres :=
   | [] => inl (Some [])
   | t :: rest =>
       match t with
-      | ASig ps rs _ =>
+      | ASig ps rs v =>
+          if v then inr Err else           (* fixed: variadic functions are refused *)
           if alen rs =? 0 then inr Err else
           match anth rs (alen rs - 1) with
           | None => inr Crash
@@ -132,7 +134,7 @@ Definition add_curry (typs : list aty) : gres :=
   need (length typs =? 1) (
   idx typs 0 (fun t0 =>
   match t0 with
-  | ASig ps _ _ => need (2 <=? alen ps) Ok
+  | ASig ps _ v => need (negb v) (need (2 <=? alen ps) Ok)   (* fixed: variadic refused *)
   | _ => Err
   end)).
 
@@ -338,10 +340,10 @@ Definition add_uncurry (typs : list aty) : gres :=
   need (length typs =? 1) (
   idx typs 0 (fun t0 =>
   match t0 with
-  | ASig ps rs _ =>
+  | ASig ps rs v =>
       need (alen ps =? 1) (
       need (alen rs =? 1) (
-      at_ rs 0 (fun r => match r with ASig _ _ _ => Ok | _ => Err end)))
+      at_ rs 0 (fun r => match r with ASig _ _ v' => need (negb (v || v')) Ok (* fixed *) | _ => Err end)))
   | _ => Err
   end)).
 
